@@ -1161,15 +1161,11 @@ func (d *dealer) syncYield(callee *wamp.Session, msg *wamp.Yield, progress, canR
 
 		// Let's check: was ppt feature announced by callee?
 		if !callee.HasFeature(wamp.RoleCallee, wamp.FeaturePayloadPassthruMode) {
-			// Notify caller that CALL was erred.
-			d.trySend(caller, &wamp.Error{
-				Type:    msg.MessageType(),
-				Request: msg.Request,
-				Details: wamp.Dict{
-					"error": ErrPPTNotSupportedByPeer.Error(),
-				},
-				Error: wamp.ErrFeatureNotSupported,
-			})
+			// Notify caller that CALL was erred. A progressive result leaves
+			// the call pending; it ends when the aborted callee is removed.
+			if !progress {
+				d.trySend(caller, pptCallError(callID.request))
+			}
 			// Protocol violation, so need to abort connection.
 			abortMsg := wamp.Abort{Reason: wamp.ErrProtocolViolation}
 			abortMsg.Details = wamp.Dict{}
@@ -1189,6 +1185,11 @@ func (d *dealer) syncYield(callee *wamp.Session, msg *wamp.Yield, progress, canR
 				},
 				Error: wamp.ErrFeatureNotSupported,
 			})
+			// The result cannot be delivered. A final result ends the call,
+			// so the caller must be told.
+			if !progress {
+				d.trySend(caller, pptCallError(callID.request))
+			}
 			return false
 		}
 
@@ -1218,6 +1219,19 @@ func (d *dealer) syncYield(callee *wamp.Session, msg *wamp.Yield, progress, canR
 			wamp.CancelModeKillNoWait, wamp.ErrCanceled, nil)
 	}
 	return false
+}
+
+// pptCallError is the final reply to a caller whose call ended because the
+// callee's result used payload passthru mode that one side does not support.
+func pptCallError(request wamp.ID) *wamp.Error {
+	return &wamp.Error{
+		Type:    wamp.CALL,
+		Request: request,
+		Details: wamp.Dict{
+			"error": ErrPPTNotSupportedByPeer.Error(),
+		},
+		Error: wamp.ErrFeatureNotSupported,
+	}
 }
 
 func (d *dealer) syncError(callee *wamp.Session, msg *wamp.Error) {
